@@ -6,7 +6,7 @@ from .. import vfcore as V
 
 PROP = "C10"
 TARGETS = ["theories/MuxPool/Proofs.vo"]
-GO = ["zz_verif_pool_test.go"]
+GO = ["zz_verif_pool_test.go", "zz_verif_receiver_test.go"]
 REPLACE = {"transport/mux/session/zz_verif_access.go": os.path.join(V.ROOT, "go/overlay/transport/mux/session/zz_verif_access.go")}
 
 
@@ -150,7 +150,8 @@ def check(tier, seed):
     err2, model = run_model(exe, hs) if ok else ("no driver", None)
     if err or err2:
         ck.obligation("correspondence run", False, (err or err2)[:1500])
-        ck.violation({"kind": "harness", "log": err or err2, "broken": "C10 harness"}, "harness failed: " + (err or err2)[:300], no_input=True)
+        if not (err and V.crash_violation(ck, err, os.path.join(V.WORK, "c10_main.out"), hs, lambda h: run_impl([h], "crash")[0], "mux provider + manager harness")):
+            ck.violation({"kind": "harness", "log": err or err2, "broken": "C10 harness"}, "harness failed: " + (err or err2)[:300], no_input=True)
         return ck.finish()
     diffs, mon, distinct = [], [], set()
     for i, h in enumerate(hs):
@@ -166,6 +167,42 @@ def check(tier, seed):
     ck.obligation("correspondence: real provider + manager + sessions = extracted model (live sessions, open connections, CanAcceptConnections after every event)", not diffs, "%d differ" % len(diffs))
     ck.obligation("monitor: never more live sessions than configured; pool back at full strength after enough good attempts; after shutdown nothing registered and nothing open", not mon, "%d histories" % len(mon))
     ck.log("%d histories, %d differ from model, %d monitor hits" % (len(hs), len(diffs), len(mon)))
+    # the REAL receiver-role provider over loopback TCP (real time): a faulty peer at each stage of the hand-shake, with and
+    # without TLS, between two healthy peers; the model's prediction for healthy / first-ping-failure / healthy is a full pool
+    rows = [("plain-" + f, 0, f) for f in ("silent", "garbage", "partial", "hangup")] + [("tls-" + f, 1, f) for f in ("silent", "garbage", "partial", "tlssilent", "hangup")]
+    rin = os.path.join(V.WORK, "c10_recv.in")
+    rout = os.path.join(V.WORK, "c10_recv.out")
+    open(rin, "w").write("".join("RR %s tls=%d fault=%s\n" % r for r in rows))
+    if os.path.exists(rout):
+        os.remove(rout)
+    rc, out = V.go_test("transport/mux", GO, "^TestVerifReceiverRole$", env={"VERIF_IN": rin, "VERIF_OUT": rout}, timeout=300, replace=REPLACE)
+    errm, mres = run_model(exe, [["N 2", "A 1 1 1", "A 1 1 2", "A 1 1 1", "X"]])
+    want_live = None
+    if not errm:
+        st = states(mres[0])
+        want_live = (st[3].split()[1], st[-1].split()[1], st[-1].split()[2]) if len(st) >= 5 else None
+    rbad = []
+    if rc != 0 or not os.path.exists(rout):
+        rbad.append(("harness", "receiver-role harness failed: " + out[-1500:]))
+    elif want_live != ("live=2", "live=0", "open=0"):
+        rbad.append(("model", "model prediction for healthy/ping-failure/healthy in a pool of 2 is %r" % (want_live,)))
+    else:
+        got = {l.split()[1]: l for l in open(rout).read().split("\n") if l.startswith("ROW ")}
+        for name, _, _ in rows:
+            l = got.get(name, "ROW %s missing" % name)
+            f = dict(x.split("=") for x in l.split()[2:] if "=" in x)
+            if f.get("first") != "1" or f.get("healed") != "1" or f.get("badclosed") != "1" or f.get("shut") != "1" or f.get("live") != "0" or int(f.get("max", "9")) > 2:
+                rbad.append((name, l))
+    ck.obligation("real receiver-role provider over TCP, with and without TLS: a peer that goes silent, sends garbage, stops mid-record, completes TLS only, or hangs up does not keep its slot; "
+                  "the pool of 2 returns to full strength, never exceeds 2, and shutdown closes everything (%d rows; model: live=2 then live=0 open=0)" % len(rows), not rbad, "; ".join(x[1] for x in rbad)[:600])
+    if rbad and not mon:
+        name, l = rbad[0]
+        row = [r for r in rows if r[0] == name]
+        if row:
+            ck.violation({"kind": "receiver", "row": list(row[0]), "impl": l, "verdict": "the receiver-role pool of 2 did not behave as the model predicts (first=1 healed=1 badclosed=1 shut=1 live=0 max<=2)"},
+                         "C10 receiver role, faulty peer '%s'%s: %s" % (row[0][2], " with TLS" if row[0][1] else "", l))
+        else:
+            ck.violation({"kind": "harness", "log": l, "broken": "C10 receiver-role harness"}, l[:300], no_input=True)
     if mon:
         i, b = mon[0]
         ck.violation({"kind": "history", "history": hs[i], "impl": impl[i], "verdict": b[0]}, b[0][:300])
@@ -183,11 +220,23 @@ def check(tier, seed):
 
 
 def replay(data):
+    if data.get("kind") == "receiver":
+        rin = os.path.join(V.WORK, "c10_recvr.in")
+        rout = os.path.join(V.WORK, "c10_recvr.out")
+        open(rin, "w").write("RR %s tls=%d fault=%s\n" % tuple(data["row"]))
+        rc, out = V.go_test("transport/mux", GO, "^TestVerifReceiverRole$", env={"VERIF_IN": rin, "VERIF_OUT": rout}, timeout=300, replace=REPLACE)
+        l = open(rout).read().strip() if rc == 0 and os.path.exists(rout) else out[-800:]
+        print(l)
+        f = dict(x.split("=") for x in l.split()[2:] if "=" in x)
+        ok = f.get("first") == "1" and f.get("healed") == "1" and f.get("badclosed") == "1" and f.get("shut") == "1" and f.get("live") == "0" and int(f.get("max", "9")) <= 2
+        return 0 if ok else 1
     if "history" not in data:
         print("nothing to execute: " + "; ".join(data.get("broken", [])))
         return 1
     err, impl = run_impl([data["history"]], "replay")
     print(err or "\n".join(impl[0]))
+    if data.get("kind") == "crash":
+        return 1 if err else 0
     b = monitor(data["history"], impl[0]) if not err else ["harness error"]
     print("MONITOR", b)
     return 1 if b else 0
